@@ -296,6 +296,7 @@ func init() {
 	// pmt.hist <payload> <script>: ONE decoded PMT object observed the way a long-lived caller does.
 	//   [0 [pid*]]  PIDExists and IsPidForStreamWherePresentationLagsEbp of every pid (each asked twice)
 	//   [1 [pid*]]  RemoveElementaryStreams
+	//   [2]         the caller keeps the list returned by ElementaryStreams() (replay aid, see notes/aliasing.md A2)
 	// reply [0 [view0 [stepresult view]*]]: every getter after every step
 	register("pmt.hist", func(a []Val) Val {
 		in := append([]byte{}, a[0].B...)
@@ -325,6 +326,11 @@ func init() {
 				held := keepInts("argument of RemoveElementaryStreams", rm)
 				p.RemoveElementaryStreams(held)
 				keepInts("Pids() after RemoveElementaryStreams", p.Pids())
+				r = VL()
+			case 2:
+				// hold the list ElementaryStreams() returns from now on.  NOT generated: on the unchanged tree the getter
+				// returns the internal slice and RemoveElementaryStreams shifts it in place (notes/aliasing.md, A2)
+				keepList("ElementaryStreams()", p.ElementaryStreams())
 				r = VL()
 			default:
 				return VBad()
